@@ -57,6 +57,8 @@ Cl(cls, lo, hi)     == Comp("cls", cls, lo, hi, "", <<>>, <<>>, {})
 Lit(ch)             == Comp("lit", "", 1, 1, ch, <<>>, <<>>, {})
 Opt(body)           == Comp("opt", "", 0, 1, "", body, <<>>, {})
 Alt(alts)           == Comp("alt", "", 1, 1, "", <<>>, alts, {})
+\* alternatives of which the first n begin with the identifier line
+AltId(alts, n)      == [x \in DOMAIN Alt(alts) \cup {"idn"} |-> IF x = "idn" THEN n ELSE Alt(alts)[x]]
 Lines(lo, hi, body) == Comp("lines", "", lo, hi, "", body, <<>>, {})
 NL                  == Comp("nl", "", 1, 1, "\n", <<>>, <<>>, {})
 Sem(name, hi)       == Comp("sem", name, 1, hi, "", <<>>, <<>>, {})
@@ -114,7 +116,11 @@ NoSlashEdge(s) == /\ Len(s) > 0 /\ s[1] # "/" /\ s[Len(s)] # "/"
 \* reads it as a name-and-address (or location) line, although "/" belongs to the x character set.
 \* So for such contents the optional first line is matched as present.
 IdLineFirst(fmt) == fmt[1].k = "opt" /\ fmt[1].body[Len(fmt[1].body)].k = "nl" /\ Len(fmt) > 1
-EffFmt(fmt, s) == IF IdLineFirst(fmt) /\ Len(s) > 0 /\ s[1] = "/" THEN fmt[1].body \o Tail(fmt) ELSE fmt
+IdAlts(fmt) == fmt[1].k = "alt" /\ "idn" \in DOMAIN fmt[1]     \* the first idn alternatives start with the identifier
+EffFmt(fmt, s) == IF Len(s) = 0 \/ s[1] # "/" THEN fmt
+                  ELSE IF IdLineFirst(fmt) THEN fmt[1].body \o Tail(fmt)
+                  ELSE IF IdAlts(fmt) THEN <<[fmt[1] EXCEPT !.alts = SubSeq(@, 1, fmt[1].idn)]>> \o Tail(fmt)
+                  ELSE fmt
 InLanguage(f, s) == (Len(s) + 1) \in MSeq(s, EffFmt(f.fmt, s), 1, {1}) /\ (f.slash => NoSlashEdge(s))
 
 (* ------------------------------- generator ------------------------------- *)
@@ -236,6 +242,8 @@ Name4    == Lines(1, 4, <<Cl("x", 1, 35)>>)
 \* format notation, so the generator keeps to a single line 1/...  (cls = "single")
 Numbered == [Lines(1, 4, <<Lit("1"), Lit("/"), Cl("x", 1, 33)>>) EXCEPT !.cls = "single"]
 Balance  == <<Sem("DC", 1), Sem("DATE", 6), Sem("CUR", 3), Sem("AMT", 15)>>
+\* options B: [/1!a][/34x] CRLF [35x] -- identifier and location, identifier alone, location alone
+PartyLoc == <<AltId(<< <<PI, NL, Cl("x", 1, 35)>>, <<PI>>, <<Cl("x", 1, 35)>> >>, 2)>>
 
 \* "idline": the format starts with an optional account line [/34x] on a line of its own
 First(fmt) == IF fmt[1].k = "opt" /\ Len(fmt[1].body) = 3 /\ fmt[1].body[1].k = "lit" /\ fmt[1].body[3].k = "nl"
@@ -285,6 +293,7 @@ Formats == {
   F("52A", <<PILine, Sem("BIC", 11)>>), F("53A", <<PILine, Sem("BIC", 11)>>), F("54A", <<PILine, Sem("BIC", 11)>>),
   F("55A", <<PILine, Sem("BIC", 11)>>), F("56A", <<PILine, Sem("BIC", 11)>>), F("57A", <<PILine, Sem("BIC", 11)>>),
   F("58A", <<PILine, Sem("BIC", 11)>>),
+  F("52B", PartyLoc), F("53B", PartyLoc), F("54B", PartyLoc), F("55B", PartyLoc), F("57B", PartyLoc),
   F("52C", <<Lit("/"), Cl("x", 1, 34)>>), F("56C", <<Lit("/"), Cl("x", 1, 34)>>), F("57C", <<Lit("/"), Cl("x", 1, 34)>>),
   F("52D", <<PILine, Name4>>), F("53D", <<PILine, Name4>>), F("54D", <<PILine, Name4>>), F("55D", <<PILine, Name4>>),
   F("56D", <<PILine, Name4>>), F("57D", <<PILine, Name4>>), F("58D", <<PILine, Name4>>),
@@ -312,7 +321,7 @@ Formats == {
 
 (* field types with formats the algebra does not express faithfully (listed as not covered):
    23, 23B (code list + conditional parts), 25P, 28D (index <= total),
-   50F, 52B-57B (either/or of two optional lines), 61, 77T (9000z) *)
+   50F, 61, 77T (9000z) *)
 
 VARIABLES fld, content
 vars == <<fld, content>>
